@@ -337,6 +337,11 @@ func (p *player) Bet(chips int64) error {
 		return ErrInvalidAction
 	}
 
+	// Not enough chips to bet that much, player can do allin only
+	if chips >= p.state.StackSize {
+		return p.Allin()
+	}
+
 	//fmt.Printf("[Player %d] bet %d\n", p.idx, chips)
 
 	p.state.DidAction = "bet"
